@@ -88,7 +88,9 @@ def draw_cfg(st):
     if on("extr"):
         for _ in range(st.choose(4, "n-extractors")):
             cname = EXTRACTABLE[st.choose(len(EXTRACTABLE), "xcls")]
-            mode = "fields" if st.choose(3, "xmode") == 2 else "raise"
+            # fields | raise | collide (returns keys named like the fields eliot itself puts on failure
+            # and traceback messages: exception, reason, action_status)
+            mode = ["raise", "raise", "fields", "collide"][st.choose(4, "xmode")]
             if cname not in [c for c, _m in ex]:
                 ex.append([cname, mode])
     cfg["extractors"] = ex
